@@ -91,6 +91,12 @@ pub fn truth_of(doc: &str, rules: &str) -> Result<Option<Truth>, String> {
     let (v, rec) = verdict(doc, rules);
     match (v, rec) {
         (Verdict::Ok { rules: rs, .. }, Some(rec)) => {
+            // the record is the ground truth of this check: it has to follow from its own parts first
+            // (the laws of C02), or nothing can be concluded from it
+            let hints = super::c02::hints_from_parse_tree(rules);
+            if let Err(e) = super::c02::check_record(&rec, hints.as_ref()) {
+                return Err(format!("record-inconsistent: the evaluation record the report is compared with contradicts itself: {}", e));
+            }
             let mut fm: BTreeMap<String, BTreeSet<String>> = BTreeMap::new();
             let mut own: BTreeMap<String, BTreeSet<String>> = BTreeMap::new();
             for ch in rec["children"].as_array().cloned().unwrap_or_default() {
@@ -272,7 +278,7 @@ fn check_case(doc: &str, files: &[String], names: Option<&BTreeSet<String>>, cal
             Ok(Some(t)) => truths.push(t),
             Ok(None) => return Ok(None),
             Err(e) => {
-                let sig = if e.starts_with("panic") { format!("panic:{}", e.split(' ').nth(1).unwrap_or("")) } else { "c09:generator-invalid".into() };
+                let sig = if e.starts_with("panic") { format!("panic:{}", e.split(' ').nth(1).unwrap_or("")) } else if e.starts_with("record-inconsistent") { "c09:record-inconsistent".into() } else { "c09:generator-invalid".into() };
                 return Err((e, sig));
             }
         }
